@@ -1,6 +1,6 @@
 SPEC = {
     "id": "C01",
-    "n": {"quick": 250, "thorough": 8000},
+    "n": {"quick": 250, "thorough": 5000},
     "components": {"1": "work-unit machine (Gql/Exec.v) under the scripted schedule vs Execute",
                    "2": "eval_ref (Gql/Ref.v) vs Execute",
                    "3": "model cannot parse the query / out of fuel / query or data does not fit the schema",
@@ -15,12 +15,12 @@ SPEC = {
         "work units are atomic in the model: Go-memory-model races between two concurrently running units are outside it (they write disjoint output nodes); the immediate-goroutine scheduler is exercised, not modelled",
     ],
     "assumptions": [
-        "valid: the query passed PrepareQuery against the schema and the data has a result for every (field, argument) of every object",
+        "theorem hypothesis: the reference evaluation eval_ref raises nothing (the query fits the schema, the data has a result for every selected (field, argument), no resolver fails, the fuel suffices), no object of the reference result carries a key twice (excludes an alias __key on a keyed object), render fuel >= nesting depth of the result",
         "resolvers are pure functions of (object, arguments); numbers are integers",
         "schedules are sequences of choices among pending units (one unit at a time)",
     ],
     "manifest": {
-        "text": "Coq theorems (Props/C01.v) over an executable model of the work-unit executor state that, for every schema, valid query, data graph, execution-mode assignment and schedule, a completed run returns exactly the JSON of the sequential reference evaluator eval_ref; on every run generated schemas/queries are executed by the real executor under three mode assignments x four schedulers and compared with an independent Go reference evaluator (oracle) and with the model (correspondence).",
+        "text": "Coq theorems (Props/C01.v, proved: execution_equals_reference, execution_terminates, schedule_independence, split_to_n_pairs) over an executable model of the work-unit executor state that, for every schema, valid query, data graph, execution-mode assignment and schedule, a completed run returns exactly the JSON of the sequential reference evaluator eval_ref; on every run generated schemas/queries are executed by the real executor under three mode assignments x four schedulers and compared with an independent Go reference evaluator (oracle) and with the model (correspondence).",
         "note": "Trusted: Coq kernel + vm_compute; the hand-written Gql model (tied to the code only by the correspondence check); the Go harness. Units are atomic in the model; data races inside concurrently running units are outside it.",
         "technique": "Coq proof over executable model (refinement to a sequential evaluator) + differential correspondence check (vm_compute) + property oracle on implementation outputs",
     },
